@@ -105,10 +105,15 @@ var (
 type vc08PacketConn struct {
 	net.PacketConn
 
+	// mu makes the fake as safe for concurrent use as a real UDP socket is.
+	mu    sync.Mutex
 	wrote [][]byte
 }
 
 func (c *vc08PacketConn) WriteTo(b []byte, _ net.Addr) (n int, err error) {
+	c.mu.Lock()
+	defer c.mu.Unlock()
+
 	c.wrote = append(c.wrote, bytes.Clone(b))
 
 	return len(b), nil
@@ -168,12 +173,16 @@ func (s *vc08QUICStream) Context() context.Context         { return context.Back
 type vc08QUICConn struct {
 	quic.Connection
 
+	mu         sync.Mutex
 	closedWith []quic.ApplicationErrorCode
 }
 
 func (c *vc08QUICConn) LocalAddr() net.Addr  { return vc08LocalUDP }
 func (c *vc08QUICConn) RemoteAddr() net.Addr { return vc08RemoteUDP }
 func (c *vc08QUICConn) CloseWithError(code quic.ApplicationErrorCode, _ string) error {
+	c.mu.Lock()
+	defer c.mu.Unlock()
+
 	c.closedWith = append(c.closedWith, code)
 
 	return nil
@@ -254,7 +263,43 @@ type vc08Env struct {
 
 	// clone, when set, makes the handler write clone(resp) instead of resp.
 	clone func(m *dns.Msg) (c *dns.Msg)
+
+	// mode is how the handler behaves for the current case; foreign is the
+	// request it passes to WriteMsg in mode vc08HForeignReq.
+	mode    vc08HandlerMode
+	foreign *dns.Msg
+
+	// h, when set, replaces the handler altogether (concurrent part).
+	h HandlerFunc
 }
+
+// vc08HandlerMode is what the handler does with the query.
+type vc08HandlerMode int
+
+const (
+	// vc08HNormal: WriteMsg(ctx, req, resp) with the request it was given.
+	vc08HNormal vc08HandlerMode = iota
+	// vc08HReqCopy: passes a deep copy of the request to WriteMsg (equal
+	// content, another object), as middlewares that clone the request do.
+	vc08HReqCopy
+	// vc08HForeignReq: passes another request to WriteMsg (an upstream-bound
+	// clone with other EDNS settings).  A handler defect; see vc08Judge for
+	// what is still decided.
+	vc08HForeignReq
+	// vc08HErrNoWrite: returns an error without writing; the server answers
+	// with its own SERVFAIL through the same writer.
+	vc08HErrNoWrite
+	// vc08HSilent: returns nil without writing (a dropped query).
+	vc08HSilent
+)
+
+var vc08HModeNames = [...]string{"normal", "req-copy", "foreign-req", "error-no-write", "silent"}
+
+func (m vc08HandlerMode) String() string { return vc08HModeNames[m] }
+
+// ownResponse reports whether whatever the client gets is built by the server
+// itself rather than by the handler.
+func (m vc08HandlerMode) ownResponse() bool { return m == vc08HErrNoWrite || m == vc08HSilent }
 
 // setDisposer installs d as the disposer of every server of e.
 func (e *vc08Env) setDisposer(d Disposer) {
@@ -270,7 +315,22 @@ const vc08IdleTimeout = 30 * time.Second
 func vc08NewEnv() (e *vc08Env) {
 	e = &vc08Env{mtr: &vc08Metrics{}}
 	h := HandlerFunc(func(ctx context.Context, rw ResponseWriter, req *dns.Msg) (err error) {
+		if e.h != nil {
+			return e.h(ctx, rw, req)
+		}
+
 		e.handled++
+		switch e.mode {
+		case vc08HErrNoWrite:
+			return fmt.Errorf("vc08: handler failed before writing")
+		case vc08HSilent:
+			return nil
+		case vc08HReqCopy:
+			req = req.Copy()
+		case vc08HForeignReq:
+			req = e.foreign
+		}
+
 		resp := e.resp
 		if e.clone != nil {
 			// The sequence part: the handler answers from a stored message
@@ -315,10 +375,20 @@ func (e *vc08Env) serve(tr vc08Transport, cap uint16, reqBytes []byte, resp *dns
 	e.handled = 0
 	e.writeErr = nil
 
+	return e.serveRaw(tr, cap, reqBytes, dohGet)
+}
+
+// serveRaw is serve without touching the per-case fields of e; apart from the
+// configured UDP maximum (written only when it changes) it is safe to call
+// from several goroutines.
+func (e *vc08Env) serveRaw(tr vc08Transport, cap uint16, reqBytes []byte, dohGet bool) (out vc08Out) {
 	switch tr {
 	case vc08UDP:
 		s := e.plain
-		s.conf.MaxUDPRespSize = cap
+		if s.conf.MaxUDPRespSize != cap {
+			s.conf.MaxUDPRespSize = cap
+		}
+
 		ctx, cancel := s.requestContext()
 		defer cancel()
 
@@ -484,6 +554,10 @@ type vc08ReqFacts struct {
 	ECS       bool   `json:"ecs"`
 	Local     bool   `json:"local"`
 	Len       int    `json:"len"`
+	// Kind is "" for a plain query, else what makes the server answer on its
+	// own: "notimp" (opcode UPDATE), "formerr" (two questions), "qr" (the QR
+	// bit is set: not a query, ignored).
+	Kind string `json:"kind,omitempty"`
 }
 
 var vc08Sizes = []uint16{0, 1, 511, 512, 513, 1232, 4096, 65535}
@@ -526,6 +600,18 @@ func vc08GenReq(t *rapid.T, tr vc08Transport, cap uint16) (req *dns.Msg, f vc08R
 	req.Id = rapid.Uint16().Draw(t, "id")
 	req.RecursionDesired = rapid.Bool().Draw(t, "rd")
 	req.CheckingDisabled = rapid.IntRange(0, 7).Draw(t, "cd") == 0
+
+	switch rapid.IntRange(0, 19).Draw(t, "reqKind") {
+	case 0:
+		f.Kind = "notimp"
+		req.Opcode = dns.OpcodeUpdate
+	case 1:
+		f.Kind = "formerr"
+		req.Question = append(req.Question, dns.Question{Name: "second.example.", Qtype: dns.TypeA, Qclass: dns.ClassINET})
+	case 2:
+		f.Kind = "qr"
+		req.Response = true
+	}
 
 	f.HasOpt = rapid.IntRange(0, 6).Draw(t, "hasOpt") != 0
 	if f.HasOpt {
@@ -868,6 +954,42 @@ func vc08GenResp(t *rapid.T, tr vc08Transport, req *dns.Msg, rf vc08ReqFacts, li
 	return resp, f
 }
 
+// vc08GenForeign returns a request that is not the client's: its copy with the
+// EDNS part replaced the way an upstream-bound clone or a careless middleware
+// would.
+func vc08GenForeign(t *rapid.T, req *dns.Msg) (f *dns.Msg) {
+	f = req.Copy()
+	extra := f.Extra[:0]
+	for _, rr := range f.Extra {
+		if rr.Header().Rrtype != dns.TypeOPT {
+			extra = append(extra, rr)
+		}
+	}
+
+	f.Extra = extra
+	opt := &dns.OPT{Hdr: dns.RR_Header{Name: ".", Rrtype: dns.TypeOPT}}
+	switch rapid.IntRange(0, 2).Draw(t, "foreignKind") {
+	case 0:
+		// No EDNS at all.
+		return f
+	case 1:
+		// Upstream-bound: large buffer, DO, the subnet option.
+		opt.SetUDPSize(4096)
+		opt.SetDo()
+		opt.Option = append(opt.Option, &dns.EDNS0_SUBNET{Code: dns.EDNS0SUBNET, Family: 1, SourceNetmask: 24, Address: net.IP{203, 0, 113, 0}})
+	default:
+		// Options the client may not have sent.
+		opt.SetUDPSize(rapid.SampledFrom(vc08Sizes).Draw(t, "foreignUDPSize"))
+		opt.Option = append(opt.Option,
+			&dns.EDNS0_PADDING{Padding: make([]byte, 4)},
+			&dns.EDNS0_TCP_KEEPALIVE{Code: dns.EDNS0TCPKEEPALIVE})
+	}
+
+	f.Extra = append(f.Extra, opt)
+
+	return f
+}
+
 // ---------------------------------------------------------------------------
 // oracle
 
@@ -936,7 +1058,7 @@ func (f *vc08Findings) report(t testing.TB) {
 	f.mu.Lock()
 	defer f.mu.Unlock()
 
-	for _, id := range []string{vc08KnownOptSize, vc08KnownDoH64K, vc08KnownOptAlone} {
+	for _, id := range []string{vc08KnownOptSize, vc08KnownDoH64K, vc08KnownOptAlone, vc08KnownDCFallback} {
 		if u := f.unlisted[id]; u != nil {
 			t.Errorf("C08 violated (finding %q, not listed in known_findings.json; %d cases, smallest shown):\n  %s\ncase: %+v", id, u.n, u.what, u.c)
 		}
@@ -954,6 +1076,15 @@ type vc08Case struct {
 	OutTC     bool          `json:"out_tc"`
 	OutCounts [3]int        `json:"out_counts"`
 	Note      string        `json:"note,omitempty"`
+	Handler   string        `json:"handler,omitempty"`
+}
+
+// vc08Obs is what the harness saw of the handler while the case was served.
+type vc08Obs struct {
+	handled  int
+	writeErr error
+	panics   []string
+	mode     vc08HandlerMode
 }
 
 func vc08FindOpts(m *dns.Msg) (opts []*dns.OPT, misplaced int) {
@@ -999,9 +1130,7 @@ func vc08Run(
 	pf vc08RespFacts,
 ) (c vc08Case, classes []string, violations []string) {
 	limit := vc08Limit(tr, rf.HasOpt, rf.UDPSize, cap)
-	c = vc08Case{Transport: tr.String(), Cap: cap, Limit: limit, DoHGet: dohGet, Req: rf, Resp: pf}
-	cls := func(s string) { classes = append(classes, s) }
-	bad := func(format string, a ...any) { violations = append(violations, fmt.Sprintf(format, a...)) }
+	c = vc08Case{Transport: tr.String(), Cap: cap, Limit: limit, DoHGet: dohGet, Req: rf, Resp: pf, Handler: e.mode.String()}
 
 	reqBytes, err := req.Pack()
 	if err != nil {
@@ -1014,9 +1143,31 @@ func vc08Run(
 	}
 
 	out := e.serve(tr, cap, reqBytes, resp, dohGet)
+	ob := vc08Obs{handled: e.handled, writeErr: e.writeErr, panics: e.mtr.take(), mode: e.mode}
+	classes, violations = vc08Judge(fnd, &c, tr, out, ob)
+
+	return c, classes, violations
+}
+
+// vc08KnownDCFallback: the DNSCrypt handler answers a query that the handler
+// left unanswered with a SERVFAIL that does not go through normalize, so a
+// query with an OPT record gets a response without one.
+const vc08KnownDCFallback = "dnscrypt-fallback-servfail-without-opt"
+
+// vc08Judge evaluates the oracle on what was written for the case c (request
+// facts, handler-response facts and limit are taken from c).
+func vc08Judge(fnd *vc08Findings, c *vc08Case, tr vc08Transport, out vc08Out, ob vc08Obs) (classes []string, violations []string) {
+	rf, pf, limit := c.Req, c.Resp, c.Limit
 	c.Note = out.note
+	cls := func(s string) { classes = append(classes, s) }
+	bad := func(format string, a ...any) { violations = append(violations, fmt.Sprintf(format, a...)) }
 
 	cls("tr:" + tr.String())
+	cls("handler:" + ob.mode.String())
+	if rf.Kind != "" {
+		cls("req-kind:" + rf.Kind)
+	}
+
 	if rf.HasOpt {
 		cls("req-opt")
 	} else {
@@ -1029,8 +1180,11 @@ func vc08Run(
 		cls("req-opt-resp-no-opt")
 	}
 
+	// reached: the handler's response is what the transport was given.
+	reached := ob.handled == 1 && !ob.mode.ownResponse()
+
 	over := pf.PreC > limit
-	if over {
+	if over && reached {
 		cls("pre-over-limit")
 		if tr.datagram() {
 			cls("pre-over-limit-" + tr.String())
@@ -1040,7 +1194,7 @@ func vc08Run(
 	}
 
 	near := pf.PreC >= limit-40 && pf.PreC <= limit+40 || pf.PreU >= limit-40 && pf.PreU <= limit+40
-	if near {
+	if near && reached {
 		cls("near-limit")
 		if tr.datagram() {
 			cls("near-limit-datagram")
@@ -1049,16 +1203,18 @@ func vc08Run(
 		}
 	}
 
-	if pf.PreC == limit+1 || pf.PreU == limit+1 {
+	if reached && (pf.PreC == limit+1 || pf.PreU == limit+1) {
 		cls("pre-exactly-limit+1")
 	}
 
-	if pf.PreC == limit || pf.PreU == limit {
+	if reached && (pf.PreC == limit || pf.PreU == limit) {
 		cls("pre-exactly-limit")
 	}
 
+	padTransport := tr == vc08DoT || tr == vc08DoH || tr == vc08DoQ
+	kaTransport := tr == vc08TCP || tr == vc08DoT
 	if rf.Pad >= 0 {
-		if tr.encrypted() && tr != vc08DCUDP && tr != vc08DCTCP {
+		if padTransport {
 			cls("req-padding-on-dot-doh-doq")
 		} else {
 			cls("req-padding-elsewhere")
@@ -1066,23 +1222,44 @@ func vc08Run(
 	}
 
 	if rf.KeepAlive {
-		if tr == vc08TCP || tr == vc08DoT {
+		if kaTransport {
 			cls("req-keepalive-on-tcp-dot")
 		} else {
 			cls("req-keepalive-elsewhere")
 		}
 	}
 
+	if rf.KeepAlive && rf.Pad >= 0 && tr == vc08DoT {
+		cls("req-keepalive-and-padding-on-dot")
+	}
+
 	if pf.TC {
 		cls("handler-tc-preset")
 	}
 
-	if e.handled != 1 {
+	if ob.handled != 1 {
 		cls("handler-not-invoked")
 	}
 
-	if p := e.mtr.take(); len(p) > 0 {
-		bad("panic while serving: %s", strings.Join(p, "; "))
+	if len(ob.panics) > 0 {
+		bad("panic while serving: %s", strings.Join(ob.panics, "; "))
+	}
+
+	// foreign: the handler passed WriteMsg a request that is not the client's.
+	// The UDP, TCP/DoT and DoH writers have nothing else to go by (the
+	// ResponseWriter interface gives them the request only through that call),
+	// so what depends on the request is the handler's responsibility there and
+	// is not decided here (the stack unit decides it for the real middlewares).
+	// DoQ and DNSCrypt normalise against the query they read themselves, so for
+	// them everything is decided against the client's query.
+	foreign := ob.mode == vc08HForeignReq && ob.handled == 1
+	reqDecided := !foreign || tr == vc08DoQ || tr == vc08DCUDP || tr == vc08DCTCP
+	if foreign {
+		if reqDecided {
+			cls("foreign-req-judged-by-client-query")
+		} else {
+			cls("undecided:foreign-req-on-udp-tcp-dot-doh")
+		}
 	}
 
 	// The response writer refused the handler's response.  On a stream that is
@@ -1090,13 +1267,13 @@ func vc08Run(
 	// within the statement); the server then answers with its own SERVFAIL,
 	// which is judged below like any response, except that it is not a
 	// truncation of the handler's.
-	replaced := false
-	if e.writeErr != nil {
+	replaced := ob.mode.ownResponse()
+	if ob.writeErr != nil {
 		replaced = true
 		if !tr.datagram() && pf.PreU >= 65535-60 {
 			cls("stream-refused-near-64k")
 		} else {
-			bad("the response writer failed for a handler response of %d octets uncompressed (limit %d): %v", pf.PreU, limit, e.writeErr)
+			bad("the response writer failed for a handler response of %d octets uncompressed (limit %d): %v", pf.PreU, limit, ob.writeErr)
 		}
 	}
 
@@ -1107,6 +1284,11 @@ func vc08Run(
 		case tr == vc08DoQ && rf.KeepAlive:
 			// RFC 9250, section 5.5.2: a protocol error, by design.
 			cls("doq-keepalive-protocol-error")
+		case rf.Kind == "qr":
+			// Not a query: ignored.
+			cls("ignored-non-query")
+		case ob.mode == vc08HSilent && ob.handled == 1:
+			cls("handler-silent-nothing-written")
 		case !tr.datagram() && pf.PreU >= 65535-60:
 			// packWithPrefix refuses a message over 64 KiB; "nothing at all" is
 			// within the statement.
@@ -1117,7 +1299,7 @@ func vc08Run(
 			cls("nothing-written-near-limit")
 		}
 
-		return c, classes, violations
+		return classes, violations
 	}
 
 	c.OutLen = len(out.msg)
@@ -1133,16 +1315,16 @@ func vc08Run(
 		c.OutCounts = [3]int{len(m.Answer), len(m.Ns), vc08NonOpt(m.Extra)}
 	}
 
-	// (1) size.
-	if len(out.msg) > limit {
+	// (1) size.  On a stream the bound does not depend on the request.
+	if len(out.msg) > limit && (reqDecided || !tr.datagram()) {
 		what := fmt.Sprintf("size: %d octets written, limit is %d", len(out.msg), limit)
 		switch {
 		case tr == vc08DoH && rf.Pad >= 0 && len(out.msg) <= 65535+4+responsePaddingMaxSize:
 			// Padding is added after the size check; DoH has no 64 KiB guard.
-			cls(fnd.match(vc08KnownDoH64K, what, &c))
+			cls(fnd.match(vc08KnownDoH64K, what, c))
 		case uerr == nil && tr.datagram() && len(m.Answer)+len(m.Ns)+vc08NonOpt(m.Extra) == 0:
 			// Header, question and OPT alone: nothing is left to drop.
-			cls(fnd.match(vc08KnownOptAlone, what+" (header, question and OPT only)", &c))
+			cls(fnd.match(vc08KnownOptAlone, what+" (header, question and OPT only)", c))
 		default:
 			bad("%s", what)
 		}
@@ -1156,12 +1338,12 @@ func vc08Run(
 	if uerr != nil {
 		bad("the %d octets written do not unpack: %v", len(out.msg), uerr)
 
-		return c, classes, violations
+		return classes, violations
 	}
 
 	// (3) truncation is safe.  When the handler was not reached (DoQ protocol
 	// error etc.) the response is the server's own and the counts do not apply.
-	if e.handled == 1 && !replaced {
+	if ob.handled == 1 && !replaced {
 		dropped := len(m.Answer) < pf.Answer || len(m.Ns) < pf.Ns || vc08NonOpt(m.Extra) < pf.Extra
 		if dropped {
 			cls("records-dropped")
@@ -1186,6 +1368,8 @@ func vc08Run(
 			bad("records appeared: answer %d->%d, ns %d->%d, extra %d->%d",
 				pf.Answer, len(m.Answer), pf.Ns, len(m.Ns), pf.Extra, vc08NonOpt(m.Extra))
 		}
+	} else {
+		cls("server-own-response")
 	}
 
 	if m.Truncated {
@@ -1201,41 +1385,50 @@ func vc08Run(
 		bad("%d OPT records outside the additional section", misplaced)
 	}
 
-	if rf.HasOpt {
-		switch {
-		case len(opts) != 1:
-			bad("query carried an OPT record, response has %d", len(opts))
-		default:
-			o := opts[0]
-			if o.Version() != 0 {
-				bad("response OPT version is %d, want 0", o.Version())
-			}
+	if !reqDecided {
+		return classes, violations
+	}
 
-			if o.UDPSize() != rf.UDPSize {
-				if (!pf.OwnOpt || replaced) && e.handled == 1 && o.UDPSize() == 0 {
-					cls(fnd.match(vc08KnownOptSize, fmt.Sprintf("response OPT UDP size is 0, the client's is %d (the handler's response had no OPT, normalize appended one)", rf.UDPSize), &c))
-				} else {
-					bad("response OPT UDP size is %d, the client's is %d (handler response had its own OPT: %v)",
-						o.UDPSize(), rf.UDPSize, pf.OwnOpt)
-				}
-			} else if !pf.OwnOpt {
-				cls("appended-opt-size-matches-adv0")
+	switch {
+	case rf.Kind == "qr":
+		// The client did not send a query; nothing is promised about the OPT of
+		// whatever the transport answers.
+		cls("undecided:opt-for-non-query")
+	case rf.HasOpt && len(opts) == 0 && (tr == vc08DCUDP || tr == vc08DCTCP) && ob.mode == vc08HSilent && ob.handled == 1:
+		cls(fnd.match(vc08KnownDCFallback, "query carried an OPT record, the SERVFAIL that DNSCrypt sends when the handler wrote nothing has none", c))
+	case rf.HasOpt && len(opts) != 1:
+		bad("query carried an OPT record, response has %d", len(opts))
+	case rf.HasOpt:
+		o := opts[0]
+		if o.Version() != 0 {
+			bad("response OPT version is %d, want 0", o.Version())
+		}
+
+		if o.UDPSize() != rf.UDPSize {
+			if (!pf.OwnOpt || replaced || ob.handled != 1) && o.UDPSize() == 0 {
+				cls(fnd.match(vc08KnownOptSize, fmt.Sprintf("response OPT UDP size is 0, the client's is %d (the handler's response had no OPT, normalize appended one)", rf.UDPSize), c))
+			} else {
+				bad("response OPT UDP size is %d, the client's is %d (handler response had its own OPT: %v)",
+					o.UDPSize(), rf.UDPSize, pf.OwnOpt)
 			}
 		}
-	} else if len(opts) > 0 {
+	case len(opts) > 0:
 		// Not decided by the statement.
 		cls("undecided:opt-to-non-edns-client")
 	}
 
 	// (5) padding and keep-alive.
-	var outPad, outKA int
+	var outPad, outKA, padLen int
+	var kaTimeout uint16
 	for _, o := range opts {
 		for _, e0 := range o.Option {
-			switch e0.Option() {
-			case dns.EDNS0PADDING:
+			switch e0 := e0.(type) {
+			case *dns.EDNS0_PADDING:
 				outPad++
-			case dns.EDNS0TCPKEEPALIVE:
+				padLen = len(e0.Padding)
+			case *dns.EDNS0_TCP_KEEPALIVE:
 				outKA++
+				kaTimeout = e0.Timeout
 			}
 		}
 	}
@@ -1247,7 +1440,7 @@ func vc08Run(
 			if outPad > 1 {
 				bad("%d padding options in one response", outPad)
 			}
-		case pf.OwnPad >= 0 && e.handled == 1 && !replaced:
+		case pf.OwnPad >= 0 && ob.handled == 1 && !replaced:
 			// The handler's own padding travelling through: the statement talks
 			// about padding being added, so this is not decided.
 			cls("undecided:handler-padding-passthrough")
@@ -1256,10 +1449,25 @@ func vc08Run(
 		}
 	}
 
+	// The doc comments of normalize and padAnswer decide the other direction:
+	// "in the case of encrypted protocols we should pad responses" when the
+	// client indicates it, with the random-length strategy (1..31 octets); any
+	// padding the handler left in its OPT is cut first.
+	if padTransport && rf.HasOpt && rf.Pad >= 0 && len(opts) == 1 {
+		switch {
+		case outPad != 1:
+			bad("client sent padding on %s, response carries %d padding options (documented: pad)", tr, outPad)
+		case padLen < 1 || padLen >= responsePaddingMaxSize:
+			bad("padding of %d octets on %s, documented range is 1..%d", padLen, tr, responsePaddingMaxSize-1)
+		default:
+			cls("padding-length-in-documented-range")
+		}
+	}
+
 	if outKA > 0 {
 		if rf.KeepAlive {
 			cls("keepalive-returned-as-asked")
-			if tr != vc08TCP && tr != vc08DoT {
+			if !kaTransport {
 				cls("keepalive-passthrough-non-tcp")
 			}
 		} else {
@@ -1267,11 +1475,21 @@ func vc08Run(
 		}
 	}
 
-	if rf.KeepAlive && outKA == 0 && (tr == vc08TCP || tr == vc08DoT) {
-		cls("keepalive-asked-not-returned")
+	// addTCPKeepAlive's doc comment: the option is added to the response over
+	// TCP/DoT when the request indicates support, and carries the idle timeout
+	// in units of 100 ms (also when the handler's OPT already had one).
+	if kaTransport && rf.HasOpt && rf.KeepAlive && len(opts) == 1 {
+		switch {
+		case outKA != 1:
+			bad("client sent keep-alive on %s, response carries %d keep-alive options (documented: add one)", tr, outKA)
+		case kaTimeout != uint16(vc08IdleTimeout.Milliseconds()/100):
+			bad("keep-alive timeout is %d, documented is the idle timeout in 100 ms units: %d", kaTimeout, vc08IdleTimeout.Milliseconds()/100)
+		default:
+			cls("keepalive-timeout-as-documented")
+		}
 	}
 
-	return c, classes, violations
+	return classes, violations
 }
 
 func vc08NTKey(c *vc08Case) string {
@@ -1321,6 +1539,10 @@ func TestVerifC08Transports(t *testing.T) {
 		"req-keepalive-on-tcp-dot", "req-keepalive-elsewhere",
 		"padding-returned-as-asked", "keepalive-returned-as-asked",
 		"tr:udp", "tr:tcp", "tr:dot", "tr:doh", "tr:doq", "tr:dnscrypt-udp", "tr:dnscrypt-tcp",
+		"handler:req-copy", "handler:foreign-req", "handler:error-no-write", "handler:silent",
+		"foreign-req-judged-by-client-query", "req-kind:notimp", "req-kind:formerr", "req-kind:qr",
+		"req-keepalive-and-padding-on-dot", "padding-length-in-documented-range", "keepalive-timeout-as-documented",
+		"server-own-response",
 	)
 	st.Finish(t)
 
@@ -1340,6 +1562,20 @@ func TestVerifC08Transports(t *testing.T) {
 		req, rf := vc08GenReq(t, tr, cap)
 		limit := vc08Limit(tr, rf.HasOpt, rf.UDPSize, cap)
 		resp, pf := vc08GenResp(t, tr, req, rf, limit)
+
+		// What the handler does with the query.
+		e.mode, e.foreign = vc08HNormal, nil
+		switch m := rapid.IntRange(0, 19).Draw(t, "handlerMode"); {
+		case m < 3:
+			e.mode = vc08HReqCopy
+		case m < 5:
+			e.mode = vc08HForeignReq
+			e.foreign = vc08GenForeign(t, req)
+		case m == 5:
+			e.mode = vc08HErrNoWrite
+		case m == 6:
+			e.mode = vc08HSilent
+		}
 
 		// padAnswer draws the padding length from math/rand's global source;
 		// pin it to a drawn seed so that a case is a function of its draws.
